@@ -13,6 +13,7 @@ import (
 	"os"
 	"testing"
 
+	"github.com/gmrtd/gmrtd/cryptoutils"
 	"github.com/gmrtd/gmrtd/iso7816"
 	"pgregory.net/rapid"
 
@@ -395,4 +396,100 @@ func TestReplayJSON(t *testing.T) {
 	if msg := checkCommand(c); msg != "" {
 		t.Fatalf("VIOLATION reproduced: %s", msg)
 	}
+}
+
+// TestCommandHistories: commands are objects with a life - the library itself builds a command once and
+// encodes it several times (for the log, under secure messaging, for the link), and a chained transfer
+// builds several commands over windows of ONE caller-owned payload.  History: 1..5 commands whose data
+// are (possibly adjacent or overlapping) windows of a shared buffer with spare capacity behind it; then a
+// drawn sequence of steps, each encoding one of them plainly, or wrapping it under a secure-messaging
+// session first.  Oracle: every plain Encode() is the reference ISO/IEC 7816-4 encoding of the header,
+// expected length and the window's contents AS THEY WERE WHEN THE COMMAND WAS CREATED.
+func TestCommandHistories(t *testing.T) {
+	k1open := evid.Open(prop, k1)
+	evid.RapidCheck(t, 4000, 120000, func(rt *rapid.T) {
+		total := rapid.SampledFrom([]int{24, 64, 300, 700}).Draw(rt, "payload")
+		buf := make([]byte, total, total+16)
+		fill := rapid.Byte().Draw(rt, "fill")
+		for i := range buf {
+			buf[i] = fill + byte(i*5) | 1 // never 00: an Le octet written into it shows
+		}
+		orig := bytes.Clone(buf)
+		n := rapid.IntRange(1, 5).Draw(rt, "commands")
+		type built struct {
+			c        cmdCase
+			off, end int
+			obj      *iso7816.CApdu
+			want     []byte
+		}
+		var cmds []built
+		chunk := rapid.SampledFrom([]int{0, 1, 8, 16, 255, 256}).Draw(rt, "chunk")
+		for i := 0; i < n; i++ {
+			var off, end int
+			if chunk > 0 && (i+1)*chunk <= total && rapid.IntRange(0, 3).Draw(rt, "chained") > 0 {
+				off, end = i*chunk, (i+1)*chunk // adjacent windows, as a chained transfer cuts them
+			} else {
+				off = rapid.IntRange(0, total).Draw(rt, "off")
+				end = rapid.IntRange(off, total).Draw(rt, "end")
+			}
+			c := cmdCase{CLA: rapid.SampledFrom([]byte{0x00, 0x10, 0x0C, 0x1C, 0x80}).Draw(rt, "cla"), INS: rapid.SampledFrom([]byte{0x86, 0xB0, 0xA4, 0x22, 0x88}).Draw(rt, "ins"),
+				P1: rapid.Byte().Draw(rt, "p1"), P2: rapid.Byte().Draw(rt, "p2"), Nc: end - off,
+				Ne: rapid.SampledFrom([]int{0, 0, 1, 255, 256, 257, 65536}).Draw(rt, "ne")}
+			if inK1(c.Nc, c.Ne) && k1open {
+				c.Ne = 256
+			}
+			var data []byte
+			if c.Nc > 0 || rapid.Bool().Draw(rt, "empty-window-not-nil") {
+				data = buf[off:end]
+			}
+			cmds = append(cmds, built{c: c, off: off, end: end, obj: iso7816.NewCApdu(c.CLA, c.INS, c.P1, c.P2, data, c.Ne),
+				want: apdu.Encode(c.CLA, c.INS, c.P1, c.P2, bytes.Clone(orig[off:end]), c.Ne)})
+		}
+		var sm *iso7816.SecureMessaging
+		steps := rapid.IntRange(1, 8).Draw(rt, "steps")
+		var trace []string
+		wrapped, repeated := false, map[int]int{}
+		for s := 0; s < steps; s++ {
+			i := rapid.IntRange(0, n-1).Draw(rt, "which")
+			b := cmds[i]
+			if rapid.IntRange(0, 2).Draw(rt, "wrap-first") == 0 {
+				if sm == nil {
+					alg, klen := cryptoutils.TDES, 16
+					if rapid.Bool().Draw(rt, "aes") {
+						alg = cryptoutils.AES
+					}
+					key := bytes.Repeat([]byte{0x42, 0x17}, klen/2)
+					var err error
+					if sm, err = iso7816.NewSecureMessaging(alg, key, bytes.Clone(key)); err != nil {
+						evid.Infra(rt, "NewSecureMessaging: %v", err)
+					}
+				}
+				_, err := sm.Encode(b.obj)
+				trace = append(trace, fmt.Sprintf("sm.Encode(#%d) err=%v", i, err != nil))
+				wrapped = true
+			}
+			got := b.obj.Encode()
+			repeated[i]++
+			trace = append(trace, fmt.Sprintf("#%d.Encode()", i))
+			if !bytes.Equal(got, b.want) {
+				rep := map[string]any{"trace": trace, "command": b.c.repro(), "window": []int{b.off, b.end}, "payloadLen": total}
+				evid.Fail(rt, "command-history", rep, "after %v: command #%d (data = payload[%d:%d], Ne=%d) encodes as %s, the ISO 7816-4 encoding of what it was created with is %s",
+					trace, i, b.off, b.end, b.c.Ne, head(got), head(b.want))
+			}
+		}
+		again := false
+		for _, k := range repeated {
+			again = again || k > 1
+		}
+		class := "history/plain"
+		switch {
+		case wrapped && n > 1:
+			class = "history/shared-payload+secure-messaging"
+		case wrapped:
+			class = "history/secure-messaging-then-plain"
+		case n > 1:
+			class = "history/shared-payload"
+		}
+		evid.Case(class, n > 1 || wrapped || again, fmt.Sprint(trace, n, chunk, total), map[string]any{"trace": trace, "commands": n, "payloadLen": total})
+	})
 }
